@@ -8,6 +8,7 @@ A policy decides at each point who runs next; a schedule is therefore a pure fun
 """
 from . import env  # noqa: F401
 
+import collections
 import os
 import sys
 import threading
@@ -117,6 +118,8 @@ class Scheduler:
         self.lock = threading.Lock()
         self.failed = None
         self.order = []  # ("start" | "finish", thread) in the order in which it happened
+        self.marks = collections.defaultdict(dict)  # thread -> progress markers (see point())
+        self.switch_marks = []  # (thread, markers at the moment it was pre-empted)
 
     def finished_before_start(self):
         """{k: set of threads that had finished before thread k started}"""
@@ -155,10 +158,20 @@ class Scheduler:
             self.points[idx] += 1
             if kind == "fs":
                 self.fs_points[idx] += 1
+                # progress markers of a bare-store commit: dulwich opens MERGE_HEAD, reads the branch ref (the
+                # parent), then writes the commit object; from that write on the parent has been read
+                ev, rel = where
+                if rel.endswith("MERGE_HEAD") and ev == "open":
+                    self.marks[idx]["merge_head"] = True
+                elif self.marks[idx].get("merge_head") and rel.startswith("objects/") and not self.marks[idx].get("refs_done"):
+                    self.marks[idx]["parent_read"] = True
+                if ev in ("os.rename", "os.replace") and "refs/" in rel:
+                    self.marks[idx]["refs_done"] = True
             nxt = self.policy.next(self, idx, kind, where)
             if nxt is not None and nxt != idx and not self.finished[nxt]:
                 self.switches += 1
                 self.log.append((idx, self.points[idx], kind, where))
+                self.switch_marks.append((idx, dict(self.marks[idx])))
                 self.events[idx].clear()
                 self.events[nxt].set()
                 if not self.events[idx].wait(self.timeout):
